@@ -107,7 +107,8 @@ theorem restOk_of {dD : Design} {iid : Nat} {ids : List Nat}
     · intro pi' b' e
       simp only [UNode.P.injEq] at e
       have := hin j hj e.1
-      rw [hr, this] at hc; simp at hc
+      rw [hr] at this
+      rw [this] at hc; simp at hc
     · intro c' k' e
       simp only [UNode.W.injEq] at e
       rw [← e.1]; exact hids y hy hyt c hc
